@@ -245,8 +245,8 @@ Section Sem3.
           end
     end.
 
-  (* ticks can be served late and in bursts after a write that blocked: the fuel also covers the
-     instants of the schedule *)
+  (* generous: 2 * |b_in| + 3 is enough (Conn/Sem3Fuel.v, read_frame3_fuel_tight) - in keep-alive mode one
+     read serves at most two ticks however long a blocked write made the clock jump *)
   Definition fuel3 (s : st3) : nat := (3 * length (b_in (c2 s)) + 3 * length (c_sch s) + 12)%nat.
   Definition read_frame3 (m : kamode) (hz : option Z) (s : st3) : list oev * rres3 :=
     read_frame3_f (fuel3 s) m hz s.
